@@ -124,8 +124,11 @@ fn main() {
     let cl = |d: &CellDriver| CellDriver { cloned: d.cloned, flavour: d.flavour, prelude: d.prelude.clone(), programs: d.programs.clone() };
     let (small, large): (Vec<CellDriver>, Vec<CellDriver>) = drivers.into_iter().partition(|d| d.programs.iter().map(|p| p.len()).sum::<usize>() <= 3 && (thorough || d.programs.len() == 2));
     SPURIOUS_BUDGET.store(1, std::sync::atomic::Ordering::Relaxed);
+    // ... or a storm of them (the weak CAS keeps failing while the thread repeats its retry loop, up to 64 times)
+    verif_harness::vsched::STORM.store(true, std::sync::atomic::Ordering::Relaxed);
     let mut results = explore_many(small, Mode::U, cap, 3, 16, cl);
     SPURIOUS_BUDGET.store(0, std::sync::atomic::Ordering::Relaxed);
+    verif_harness::vsched::STORM.store(false, std::sync::atomic::Ordering::Relaxed);
     results.extend(explore_many(large, Mode::U, cap, 3, 16, cl));
     // a long run by one thread alone (34 updates), then two other threads join: every schedule with <= 2 preemptions
     {
